@@ -44,3 +44,9 @@ package layout
 //@   loop 1:
 //@     invariant len(filtered) == hfKept(fragments, $i, r, pageIndex, minY, maxY, headerRegion, footerRegion, invertedCoords, charLevel) && len(filtered) <= $i
 //@     invariant forall j int :: {fragments[j]} 0 <= j && j < $i && !r.isInHeaderFooter(pageIndex, fragments[j], minY, maxY, headerRegion, footerRegion, invertedCoords, charLevel) ==> hfKept(fragments, j, r, pageIndex, minY, maxY, headerRegion, footerRegion, invertedCoords, charLevel) < len(filtered) && filtered[hfKept(fragments, j, r, pageIndex, minY, maxY, headerRegion, footerRegion, invertedCoords, charLevel)] == fragments[j]
+
+// ---- C15 ----
+//@ func (*Heading) ToMarkdown
+//@   property C15
+//@   flags callsites
+//@   callsite strings.Repeat(s, count) requires level_1_to_6: s == "#" ==> 1 <= count && count <= 6
